@@ -30,7 +30,7 @@ class C02(Check):
                 add("tx", G.tx_desc(rng, **sh), "tx-empty-ring")
         for sh in G.big_count_shapes():
             add("tx", G.tx_desc(rng, **sh), "tx-big-count")
-        add("block", G.block_desc(rng, 16384), "block-16384-hashes")
+        add("block", G.block_desc(rng, 16384 if thorough else 300), "block-many-hashes")
         for _ in range(1500 if not thorough else 20000):
             sh = G.random_shape(rng, small=True)
             add("tx", G.tx_desc(rng, **sh), "tx-random-type%d" % sh["rct_type"])
@@ -87,6 +87,16 @@ class C02(Check):
             t = G.tx_desc(rng, **G.random_shape(rng, small=True))
             cs.append(Case("encshort %s tx %d %s" % (sz, rng.choice([0, 1, 5, 40, 100, 10 ** 6]), " ".join(t)), "short-writer"))
             add("tx", G.tx_desc(rng, **G.random_shape(rng, small=True)), "after-short-writer")
+        # more than 2^16 elements in one vector (a pre-allocation capped at 65536 that also caps the read loop would lose the tail)
+        for n in (65535, 65536, 65537, 70000):
+            add("bytesvec", [G.hexb(rng, n)], "vec-over-2^16")
+            add("box_u8", [G.hexb(rng, n)], "vec-over-2^16")
+            add("string", [("61" * n)], "vec-over-2^16")
+        add("vec_varint", G.lst([[str(i % 200)] for i in range(65537)]), "vec-over-2^16")
+        add("tx", G.tx_desc(rng, 2, ["gen"], 1, [False], 0, extra_len=65537), "vec-over-2^16")
+        if thorough:
+            add("vec_hash", G.lst([[G.key(rng)] for _ in range(65537)]), "vec-over-2^16")
+            add("tx", G.tx_desc(rng, 1, ["key"], 65537, [False], 0, extra_len=1), "vec-over-2^16")
         add("rangesig", G.rangesig(rng), "rangesig")
         add("key64", [G.hexb(rng, 2048)], "key64")
         for t in range(7):
